@@ -33,7 +33,7 @@ CONSTANTS
   MaxFault,       \* injected I/O errors per behaviour
   MaxCrash,       \* process deaths per behaviour
   ParamSet,       \* set of [cdx, log, digests, move : BOOLEAN, maxsize : Nat (0 = no rollover), compress, extra]
-  Kinds,          \* subset of {"http", "rev", "ftp"}
+  Kinds,          \* subset of {"http", "rev", "ftp", "cut"}  (cut: the connection breaks inside the response body)
   Shapes,         \* response header shapes
   Bodies,         \* subset of {"data", "empty"}
   CanonShapes,    \* shapes whose re-serialisation is as long as the header block on the wire
@@ -187,7 +187,8 @@ Session(kind, shape, body) ==
   /\ todo' = (CASE kind = "http" -> <<S("append", "request", shape), S4("append", "response", shape, body)>>
                 [] kind = "rev"  -> <<S("append", "request", shape),
                                       S4("append", IF par.digests THEN "revisit" ELSE "response", shape, body)>>
-                [] kind = "ftp"  -> <<S("append", "resource", "none"), S("append", "metadata", "none")>>)
+                [] kind = "ftp"  -> <<S("append", "resource", "none"), S("append", "metadata", "none")>>
+                [] kind = "cut"  -> <<S("append", "request", shape)>>)            \* end_response never happens
              \o <<S("flush", "", ""), S("sessend", "", "")>>
   /\ UNCHANGED <<par, fix, fsvars, pc, recvars, rec, ap, nextRid, runs, faults, crashes, obsvars>>
 
